@@ -57,7 +57,7 @@ impl GroupLocalProcessor {
     fn should_merge(&self, first: &VariableAssignment, next: &mut VariableAssignment) -> bool {
         let first_value_count = first.values_len();
 
-        if first.variables_len() > first_value_count && first_value_count != 0 {
+        if first.variables_len() != first_value_count && first_value_count != 0 {
             return false;
         }
 
